@@ -56,6 +56,10 @@ BOUNDS = {
             "sh4": {"ext": 1, "stride": 64},
             "x86": {"prefix": 2, "maps": 2, "second": 1, "tail": 1},
         }, _NAT),
+        # prefix stacks whose order matters to the assembler: (none, FS) x 66 x 67 x (none, F3, F2) x (none, REX.W) in
+        # front of string and mandatory-prefix SSE opcodes, memory and register ModRM
+        "x86stack": dict((n, {"seg": 2, "opsz": 2, "adsz": 2, "mand": 3, "rex": 2, "ops": ("string", "sse"),
+                              "modrm": 2}) for n in ("x86_32", "x86_64")),
         "shard": 512, "bundles": 16,
     },
     "thorough": {
@@ -68,6 +72,8 @@ BOUNDS = {
             "sh4": {"ext": 1},
             "x86": {"prefix": 7, "maps": 2, "second": 4, "tail": 2},
         }, _NAT),
+        "x86stack": dict((n, {"seg": 4, "opsz": 2, "adsz": 2, "mand": 4, "rex": 2, "ops": ("string", "lock", "sse"),
+                              "modrm": 3}) for n in ("x86_16", "x86_32", "x86_64")),
         "shard": 4096, "bundles": 96,
     },
 }
